@@ -1061,6 +1061,21 @@ class Interp:
             return Agg([v, (isinstance(v, int) and (v < 0 or v >= 2**64))], "tuple")
         return v
 
+    def decide(self, cond, site):
+        """truth of a boolean produced by a modelled library call (closure predicate): concrete, or forked like a switch"""
+        if isinstance(cond, bool):
+            return cond
+        if isinstance(cond, int):
+            return bool(cond)
+        if isinstance(cond, Poly) and cond.const_value() is not None:
+            return bool(cond.const_value())
+        if self.fork is None or not isinstance(cond, (Term, Poly)):
+            raise Unanalysable("library predicate with non-constant result %r" % (cond,))
+        c = self.fork.choose(("decide", site, len(self.path)), 2, cond)
+        truth = c == 1
+        self.path.append((cond, ("not", [0]) if truth else 0, "lib:%s" % site))
+        return truth
+
     # ---- calls ----------------------------------------------------------------------------
     def call_fn(self, f, argv, t, caller=None):
         if not isinstance(f, FnRef):
@@ -1488,6 +1503,321 @@ def install_models(I):
             acc = I.call_closure(a[2], [acc, v])
         return acc
     M["core::iter::traits::iterator::Iterator::fold"] = fold_sum
+
+
+    # ---- standard-library pack: collections, iterator adaptors, Option / Result combinators, integer conversions ----------
+    def vec_of(x):
+        v = deref(x)
+        if isinstance(v, Agg):
+            return v
+        raise Unanalysable("not a vector: %r" % (v,))
+
+    def vec_pop(I, a, f):
+        v = vec_of(a[0])
+        if not v.items:
+            return none()
+        return some(v.items.pop())
+    M["alloc::vec::Vec::pop"] = vec_pop
+
+    def vec_last_mut(I, a, f):
+        v = a[0] if isinstance(a[0], SlicePtr) else deref(a[0])
+        if isinstance(v, SlicePtr):
+            return none() if v.len == 0 else some(Ptr(v.c, v.start + v.len - 1))
+        return none() if not v.items else some(Ptr(v.items, len(v.items) - 1))
+    M["alloc::vec::Vec::last_mut"] = vec_last_mut
+    M["core::slice::[T]::last_mut"] = vec_last_mut
+
+    def vec_first(I, a, f):
+        v = a[0] if isinstance(a[0], SlicePtr) else deref(a[0])
+        if isinstance(v, SlicePtr):
+            return none() if v.len == 0 else some(Ptr(v.c, v.start))
+        return none() if not v.items else some(Ptr(v.items, 0))
+    M["alloc::vec::Vec::first"] = vec_first
+    M["core::slice::[T]::first"] = vec_first
+    M["core::slice::[T]::first_mut"] = vec_first
+
+    def as_slice_m(I, a, f):
+        v = a[0] if isinstance(a[0], SlicePtr) else deref(a[0])
+        if isinstance(v, SlicePtr):
+            return v
+        return SlicePtr(v.items, 0, len(v.items))
+    for n_ in ("alloc::vec::Vec::as_slice", "alloc::vec::Vec::as_mut_slice", "core::array::[T; N]::as_slice", "core::array::[T; N]::as_mut_slice"):
+        M[n_] = as_slice_m
+    S.append(("::as_slice", as_slice_m))
+
+    def vec_extend(I, a, f):
+        v = vec_of(a[0])
+        v.items.extend(drain(as_iter(I, a[1])))
+        return Agg([], "tuple")
+    M["alloc::vec::Vec::extend"] = vec_extend
+    S.append(("Vec@Extend::extend", vec_extend))
+    M["core::iter::traits::collect::Extend::extend"] = vec_extend
+
+    def vec_truncate(I, a, f):
+        v = vec_of(a[0])
+        if not isinstance(a[1], int):
+            raise Unanalysable("truncate to symbolic length")
+        del v.items[a[1]:]
+        return Agg([], "tuple")
+    M["alloc::vec::Vec::truncate"] = vec_truncate
+    M["alloc::vec::Vec::clear"] = lambda I, a, f: (vec_of(a[0]).items.__delitem__(slice(None)), Agg([], "tuple"))[1]
+
+    def vec_insert(I, a, f):
+        v = vec_of(a[0])
+        if not isinstance(a[1], int):
+            raise Unanalysable("insert at symbolic index")
+        v.items.insert(a[1], a[2])
+        return Agg([], "tuple")
+    M["alloc::vec::Vec::insert"] = vec_insert
+
+    def vec_remove(I, a, f):
+        v = vec_of(a[0])
+        if not isinstance(a[1], int):
+            raise Unanalysable("remove at symbolic index")
+        return v.items.pop(a[1])
+    M["alloc::vec::Vec::remove"] = vec_remove
+
+    def vec_resize(I, a, f):
+        v = vec_of(a[0])
+        if not isinstance(a[1], int):
+            raise Unanalysable("resize to symbolic length")
+        while len(v.items) < a[1]:
+            v.items.append(clone_val(a[2]))
+        del v.items[a[1]:]
+        return Agg([], "tuple")
+    M["alloc::vec::Vec::resize"] = vec_resize
+
+    def slice_get(I, a, f):
+        v = a[0] if isinstance(a[0], SlicePtr) else I.as_slice(a[0])
+        if isinstance(a[1], int):
+            return some(v.at(a[1])) if 0 <= a[1] < v.len else none()
+        raise Unanalysable("slice::get with symbolic index")
+    M["core::slice::[T]::get"] = slice_get
+
+    def it_pred(name):
+        def m(I, a, f):
+            it = as_iter(I, a[0])
+            idx = 0
+            while True:
+                v = it.next()
+                if v is StopIteration:
+                    return {"find": none(), "position": none(), "any": False, "all": True}[name]
+                if name == "find":
+                    r = I.call_closure(a[1], [Ptr([v], 0)])
+                else:
+                    r = I.call_closure(a[1], [v])
+                t_ = I.decide(r, name)
+                if name == "find" and t_:
+                    return some(v)
+                if name == "position" and t_:
+                    return some(idx)
+                if name == "any" and t_:
+                    return True
+                if name == "all" and not t_:
+                    return False
+                idx += 1
+        return m
+    for n_ in ("find", "position", "any", "all"):
+        M["core::iter::traits::iterator::Iterator::" + n_] = it_pred(n_)
+        S.append(("@Iterator::" + n_, it_pred(n_)))
+
+    class FilterIt(It):
+        def __init__(self, inner, clo, interp, mapf=False):
+            self.inner, self.clo, self.interp, self.mapf = inner, clo, interp, mapf
+
+        def next(self):
+            while True:
+                v = self.inner.next()
+                if v is StopIteration:
+                    return v
+                if self.mapf:
+                    r = self.interp.call_closure(self.clo, [v])
+                    if isinstance(r, Agg) and r.variant == "Some":
+                        return r.items[0]
+                    if isinstance(r, Agg) and r.variant == "None":
+                        continue
+                    raise Unanalysable("filter_map closure result %r" % (r,))
+                if self.interp.decide(self.interp.call_closure(self.clo, [Ptr([v], 0)]), "filter"):
+                    return v
+    M["core::iter::traits::iterator::Iterator::filter"] = lambda I, a, f: FilterIt(as_iter(I, a[0]), a[1], I)
+    M["core::iter::traits::iterator::Iterator::filter_map"] = lambda I, a, f: FilterIt(as_iter(I, a[0]), a[1], I, True)
+
+    def it_count(I, a, f):
+        return len(drain(as_iter(I, a[0])))
+    M["core::iter::traits::iterator::Iterator::count"] = it_count
+
+    def it_last(I, a, f):
+        xs = drain(as_iter(I, a[0]))
+        return some(xs[-1]) if xs else none()
+    M["core::iter::traits::iterator::Iterator::last"] = it_last
+
+    def it_nth(I, a, f):
+        it = as_iter(I, a[0])
+        if not isinstance(a[1], int):
+            raise Unanalysable("nth with symbolic index")
+        v = StopIteration
+        for _ in range(a[1] + 1):
+            v = it.next()
+            if v is StopIteration:
+                break
+        return opt(v)
+    M["core::iter::traits::iterator::Iterator::nth"] = it_nth
+
+    def it_sum(I, a, f):
+        acc = None
+        for v in drain(as_iter(I, a[0])):
+            v = deref(v)
+            acc = v if acc is None else (acc + v if not isinstance(acc, Term) and not isinstance(v, Term) else Term("+", acc, v))
+        return acc if acc is not None else 0
+    M["core::iter::traits::iterator::Iterator::sum"] = it_sum
+
+    def it_try_for_each(I, a, f):
+        it = as_iter(I, a[0])
+        while True:
+            v = it.next()
+            if v is StopIteration:
+                return Agg([Agg([], "tuple")], "adt", "core::result::Result", "Ok")
+            r = I.call_closure(a[1], [v])
+            if isinstance(r, Agg) and r.variant in ("Err", "None", "Break"):
+                return r
+    M["core::iter::traits::iterator::Iterator::try_for_each"] = it_try_for_each
+
+    # Option / Result combinators
+    def opt_map(I, a, f):
+        x = deref(a[0]) if isinstance(a[0], Ptr) else a[0]
+        if isinstance(x, Agg) and x.variant in ("Some", "Ok"):
+            return Agg([I.call_closure(a[1], [x.items[0]])], "adt", x.adt, x.variant)
+        if isinstance(x, Agg) and x.variant in ("None", "Err"):
+            return x
+        raise Unanalysable("map on %r" % (x,))
+    M["core::option::Option::map"] = opt_map
+    M["core::result::Result::map"] = opt_map
+
+    def res_map_err(I, a, f):
+        x = a[0]
+        if isinstance(x, Agg) and x.variant == "Err":
+            return Agg([I.call_closure(a[1], [x.items[0]])], "adt", x.adt, "Err")
+        if isinstance(x, Agg) and x.variant == "Ok":
+            return x
+        raise Unanalysable("map_err on %r" % (x,))
+    M["core::result::Result::map_err"] = res_map_err
+
+    def and_then(I, a, f):
+        x = a[0]
+        if isinstance(x, Agg) and x.variant in ("Some", "Ok"):
+            return I.call_closure(a[1], [x.items[0]])
+        if isinstance(x, Agg) and x.variant in ("None", "Err"):
+            return x
+        raise Unanalysable("and_then on %r" % (x,))
+    M["core::option::Option::and_then"] = and_then
+    M["core::result::Result::and_then"] = and_then
+
+    def ok_or(I, a, f):
+        x = a[0]
+        if isinstance(x, Agg) and x.variant == "Some":
+            return Agg([x.items[0]], "adt", "core::result::Result", "Ok")
+        if isinstance(x, Agg) and x.variant == "None":
+            return Agg([a[1]], "adt", "core::result::Result", "Err")
+        raise Unanalysable("ok_or on %r" % (x,))
+    M["core::option::Option::ok_or"] = ok_or
+
+    def ok_or_else(I, a, f):
+        x = a[0]
+        if isinstance(x, Agg) and x.variant == "Some":
+            return Agg([x.items[0]], "adt", "core::result::Result", "Ok")
+        if isinstance(x, Agg) and x.variant == "None":
+            return Agg([I.call_closure(a[1], [])], "adt", "core::result::Result", "Err")
+        raise Unanalysable("ok_or_else on %r" % (x,))
+    M["core::option::Option::ok_or_else"] = ok_or_else
+
+    def unwrap_or_else(I, a, f):
+        x = a[0]
+        if isinstance(x, Agg) and x.variant in ("Some", "Ok"):
+            return x.items[0]
+        if isinstance(x, Agg) and x.variant == "None":
+            return I.call_closure(a[1], [])
+        if isinstance(x, Agg) and x.variant == "Err":
+            return I.call_closure(a[1], [x.items[0]])
+        raise Unanalysable("unwrap_or_else on %r" % (x,))
+    M["core::option::Option::unwrap_or_else"] = unwrap_or_else
+    M["core::result::Result::unwrap_or_else"] = unwrap_or_else
+    M["core::option::Option::unwrap_or_default"] = lambda I, a, f: a[0].items[0] if isinstance(a[0], Agg) and a[0].variant == "Some" else 0
+
+    def is_some_and(I, a, f):
+        x = a[0]
+        if isinstance(x, Agg) and x.variant in ("Some", "Ok"):
+            return I.call_closure(a[1], [x.items[0]])
+        if isinstance(x, Agg) and x.variant in ("None", "Err"):
+            return False
+        raise Unanalysable("is_some_and on %r" % (x,))
+    M["core::option::Option::is_some_and"] = is_some_and
+    M["core::result::Result::is_ok_and"] = is_some_and
+
+    def res_ok(I, a, f):
+        x = a[0]
+        if isinstance(x, Agg) and x.variant == "Ok":
+            return some(x.items[0])
+        if isinstance(x, Agg) and x.variant == "Err":
+            return none()
+        raise Unanalysable("ok() on %r" % (x,))
+    M["core::result::Result::ok"] = res_ok
+
+    def opt_copied(I, a, f):
+        x = a[0]
+        if isinstance(x, Agg) and x.variant == "Some":
+            return some(clone_val(deref(x.items[0])))
+        return x
+    M["core::option::Option::copied"] = opt_copied
+    M["core::option::Option::cloned"] = opt_copied
+    M["core::option::Option::as_ref"] = lambda I, a, f: (some(Ptr(deref(a[0]).items, 0)) if deref(a[0]).variant == "Some" else none())
+    M["core::option::Option::as_mut"] = M["core::option::Option::as_ref"]
+
+    def opt_take(I, a, f):
+        p_ = a[0]
+        x = p_.get()
+        p_.set(none())
+        return x
+    M["core::option::Option::take"] = opt_take
+
+    def mem_replace(I, a, f):
+        old = a[0].get()
+        a[0].set(a[1])
+        return old
+    M["core::mem::replace"] = mem_replace
+
+    def mem_swap(I, a, f):
+        x, y = a[0].get(), a[1].get()
+        a[0].set(y)
+        a[1].set(x)
+        return Agg([], "tuple")
+    M["core::mem::swap"] = mem_swap
+
+    # integer conversions and helpers
+    def int_try_from(bits):
+        def m(I, a, f):
+            x = a[0]
+            if isinstance(x, bool):
+                x = int(x)
+            if isinstance(x, int):
+                if 0 <= x < 2 ** bits:
+                    return Agg([x], "adt", "core::result::Result", "Ok")
+                return Agg([Opaque("TryFromIntError")], "adt", "core::result::Result", "Err")
+            if isinstance(x, Term):
+                fits = I.decide(simplify_term("<=", x, 2 ** bits - 1), "try_from")
+                if fits:
+                    return Agg([Term("as_u%d" % bits, x) if bits in (8, 16, 32) else x], "adt", "core::result::Result", "Ok")
+                return Agg([Opaque("TryFromIntError")], "adt", "core::result::Result", "Err")
+            raise Unanalysable("integer try_from of %r" % (x,))
+        return m
+    for ty_, b_ in (("u8", 8), ("u16", 16), ("u32", 32), ("u64", 64), ("usize", 64)):
+        S.append(("num::%s@TryFrom::try_from" % ty_, int_try_from(b_)))
+
+    def abs_diff(I, a, f):
+        if isinstance(a[0], int) and isinstance(a[1], int):
+            return abs(a[0] - a[1])
+        return Term("abs_diff", a[0], a[1])
+    for ty_ in ("u8", "u16", "u32", "u64", "usize"):
+        M["core::num::%s::abs_diff" % ty_] = abs_diff
 
     # Box<[T;N]> / vec! plumbing
     M["alloc::boxed::Box::new_uninit"] = lambda I, a, f: Ptr([None], 0)
